@@ -413,7 +413,10 @@ pub fn workloads() -> Vec<Vec<OpSpec>> {
     ]
 }
 
-pub const KINDS: [FaultKind; 12] = [
+pub const KINDS: [FaultKind; 15] = [
+    FaultKind::ReadErr(0),
+    FaultKind::ReadErr(1),
+    FaultKind::ReadErr(2),
     FaultKind::EpipeAfter,
     FaultKind::StallMid(2),
     FaultKind::Eof,
@@ -745,7 +748,8 @@ pub fn random_faulty_plan(rng: &mut Rng) -> ClientPlan {
     let nf = 1 + rng.usize_below(4);
     let q = *rng.pick(&[10u64, 25, 60]);
     for _ in 0..nf {
-        let kind = match rng.below(13) {
+        let kind = match rng.below(14) {
+            13 => FaultKind::ReadErr(rng.below(3) as u8),
             12 => FaultKind::IdentityAbort(rng.next_u64() as u8),
             10 => FaultKind::EpipeAfter,
             11 => FaultKind::StallMid(rng.below(40) as u16),
